@@ -101,6 +101,17 @@ def c17(tier, seed):
                             detail=None if ok else 'opcode %#x named %s, registry gives %s' % (v, n, sorted(want)),
                             native=None if ok else dict(confirmed=True, how='table read', input='%#x' % v, observed=n,
                                                         expected=sorted(want))))
+    # per-machine tables: the table consulted for a machine must be that machine's (every pair of another machine's table
+    # is individually right, so the pairwise comparison cannot see a table attached to the wrong machine).  The gABI naming
+    # convention is the oracle: processor-specific dynamic tags of machine EM_<ARCH> are named DT_<ARCH>_*
+    import elftools.elf.enums as EE
+    for mach, tab in sorted(EE.ENUMMAP_EXTRA_D_TAG_MACHINE.items()):
+        arch = mach[3:]
+        parts = arch.split('_')         # EM_MIPS_RS3_LE is a MIPS machine: any leading part of the machine name is its family
+        fams = ['_'.join(parts[:i]) for i in range(len(parts), 0, -1)]
+        wrong = sorted(n for n in tab if n != '_default_' and not any(n.startswith('DT_%s_' % f) for f in fams))
+        derived('elf/enums.py:ENUMMAP_EXTRA_D_TAG_MACHINE[%s]:machine-prefix' % mach, not wrong,
+                'machine %s is given a table with the names %r (expected DT_%s_*)' % (mach, wrong[:4], arch))
     # operation names <-> opcodes one-to-one (C12/C17)
     rev = {}
     for n, v in DX.DW_OP_name2opcode.items():
